@@ -120,6 +120,7 @@ func alphabetKeys(cfg Cfg) []Op {
 	}
 	a = append(a,
 		Op{Op: "del", Slot: 0}, Op{Op: "del", Slot: 1}, Op{Op: "delall"},
+		Op{Op: "sdel", Field: "A", Cmp: ">=", Probe: 2, Alt: 1}, // delete by search, through a union with an empty search
 		Op{Op: "many", Batch: []Mem{{Kind: "fresh", V: 0, K: 0}, {Kind: "fresh", V: 1, K: 3}}},
 		Op{Op: "many", Batch: []Mem{{Kind: "fresh", V: 0, K: 2}, {Kind: "fresh", V: 1, K: 1}}}, // conflict inside the batch (N)
 		Op{Op: "many", Batch: []Mem{{Kind: "slot", Slot: 0, V: 2, K: 4}, {Kind: "fresh", V: 1, K: 0}}},
